@@ -30,6 +30,22 @@ Bound(fold, backend, fs, n) == backend # "raw" \/ ExactFor(fold, fs, n)
 \* spelled './x', 'x//', 'x\\') denote nothing, like a trailing separator
 BoundText(fold, backend, fs, text) == Bound(fold, backend, fs, TextComps(text))
 
+(* ---- the record is a concretisation of the model's symbols ---------------------------- *)
+NamesAbs == {<<"a", "x">>, <<"a", "X">>, <<"ab", "x">>, <<"a", "b", "x">>, <<"x">>, <<"A", "x">>}
+TabOf(r) == [s \in {r.conc[k][1] : k \in 1..Len(r.conc)} |-> r.conc[CHOOSE k \in 1..Len(r.conc) : r.conc[k][1] = s][2]]
+MapsTo(tab, afiles, files) ==
+    /\ Len(afiles) = Len(files)
+    /\ \A k \in 1..Len(files) : afiles[k] \in NamesAbs /\ files[k][1] = ConcName(tab, afiles[k])
+ConcChecked(r) ==
+    r.conc = <<>> \/
+    LET tab == TabOf(r) fold == FoldOf(r) IN
+    (/\ Admissible(fold, tab)
+     /\ IF r.k = "fs" THEN MapsTo(tab, r.afiles, r.files)
+        ELSE \A m \in 1..Len(r.members) :
+                /\ MapsTo(tab, r.members[m].afiles, r.members[m].files)
+                /\ r.members[m].pfx = ConcName(tab, r.members[m].apfx))
+      \/ Report("input.conc", "act", 0, 0, r.conc)
+
 (* ---- one look-up / one walk on one backend ------------------------------------- *)
 \* got = [has, hase, c, ce, cb, cbe, cs, cse]
 LookupOK(fold, fs, n, x) ==
@@ -142,7 +158,7 @@ ChainChecked(r) ==
                  \/ Report("chain.walk.result", "walks", j, 0, ChainWalkKeys(fold, ch, d))))
 
 Checked == i = 0 \/ LET r == Recs[i] IN
-              CASE r.k = "fs" -> FsChecked(r) [] r.k = "chain" -> ChainChecked(r)
+              ConcChecked(r) /\ CASE r.k = "fs" -> FsChecked(r) [] r.k = "chain" -> ChainChecked(r)
 Init == i = 0
 Next == i < N /\ i' = i + 1
 AllConsumed == TLCGet("stats").diameter = N + 1
